@@ -66,6 +66,10 @@ def err_key(errors):
 
 
 def load_source(source):
+    import typing
+
+    for clear in getattr(typing, "_cleanups", ()):  # typing's own caches identify List[Union[A, B]] and List[Union[B, A]]
+        clear()
     p = Program(Prim("int"))
     p.source = source + "\nT = None\n"
     p.load()
@@ -101,15 +105,18 @@ def make_data(env, ref, n):
 
 
 def is_json(x, depth=0):
-    t = type(x)
-    if x is None or t in (bool, int, float, str):
+    import enum
+
+    if isinstance(x, enum.Enum):
+        return False
+    if x is None or isinstance(x, (bool, int, float, str)):
         return True
     if depth > 100:
         return True
-    if t in (list, tuple):
+    if isinstance(x, (list, tuple)) and not hasattr(x, "_fields"):
         return all(is_json(e, depth + 1) for e in x)
-    if t is dict:
-        return all(type(k) is str and is_json(v, depth + 1) for k, v in x.items())
+    if isinstance(x, dict):
+        return all(isinstance(k, (str, int, float, bool)) and not isinstance(k, enum.Enum) and is_json(v, depth + 1) for k, v in x.items())
     return False
 
 
@@ -491,15 +498,15 @@ def eval_placement(env, case, pl, mod, kw_d, kw_s, wit, feat, gsig, ndata):
             if s_op is not None:
                 ref_val = expd[3]
                 a, b = harness.call(s_op, lhs.value), harness.call(s_s, ref_val)
-                if b.kind == "ok" and not is_json(b.value):
-                    env.count("abstain:reference serialize returns non-JSON objects (union of containers dispatches on the container class)")
-                elif a.kind == "ok" and b.kind == "ok":
+                if a.kind == "ok" and b.kind == "ok":
                     try:
                         same = canon(a.value) == canon(b.value)
                     except Unspecified:
                         same = a.value == b.value
                     if same:
                         env.count("s_agree")
+                    elif not is_json(b.value):
+                        env.count("abstain:reference serialize returns non-JSON objects (union of containers dispatches on the container class)")
                     else:
                         env.violation({**feat, "kind": "serialized-value", "graph": feats_of(exp)}, {**w, "value": repr(lhs.value)[:300], "expected": b.brief(), "observed": a.brief()})
                 elif a.kind == b.kind and a.exc == b.exc:
@@ -526,24 +533,60 @@ def eval_placement(env, case, pl, mod, kw_d, kw_s, wit, feat, gsig, ndata):
         compare_schemas(env, case, pl, mod, "serialization", serialization_schema, kw_s, data, wit, feat)
 
 
+def _cats(a, side):
+    """runtime-class categories a value of alternative `a` may have (side: 'op' converted / 'ref' erased)"""
+    from vf.spec import Ann, Coll, MapT, NewT, Tup, Union_
+    from vf.c12_graph import AnnX
+
+    while True:
+        if isinstance(a, Exp):
+            if a.cls.kind == "ml":
+                return {"list"}
+            if side == "op":
+                return {"opq:" + a.cls.name}
+            if len(a.alts) != 1:
+                return {"?"}
+            a = a.alts[0][1]
+        elif isinstance(a, (Ann, NewT, AnnX)):
+            a = a.t
+        else:
+            break
+    if isinstance(a, Prim):
+        return {a.p}
+    if isinstance(a, Coll):
+        return {"list": {"list"}, "blist": {"list"}, "vartuple": {"tuple"}, "set": {"set"}, "mutset": {"set"}, "frozenset": {"frozenset"},
+                "absset": {"set", "frozenset"}, "mutseq": {"list"}, "seq": {"list", "tuple", "str"}, "coll": {"list", "tuple", "str", "set", "frozenset", "dict"}}.get(a.c, {"?"})
+    if isinstance(a, Tup):
+        return {"tuple"}
+    if isinstance(a, MapT):
+        return {"dict"}
+    if isinstance(a, ObjectT):
+        return {"dict"} if a.kind == "typeddict" else {"tuple"} if a.kind == "namedtuple" else {"obj:" + a.name}
+    if isinstance(a, Union_):
+        out = set()
+        for x in a.alts:
+            out |= _cats(x, side)
+        return out
+    return {"?"}
+
+
 def ambiguous_union_serialization(t):
-    """a union with two alternatives whose runtime classes overlap (two sequence-like or two mapping-like types):
-    serialization dispatches on the runtime class of the value only, which alternative serializes a list is
-    not specified by C12 (C04 territory) -- the serialization square abstains"""
-    from vf.spec import Coll, MapT, Tup, Union_
+    """a union two alternatives of which may hold values of the same runtime class (on the converted or on the
+    reference side): serialization dispatches on the runtime class only, which alternative then serializes the value
+    is not C12's business (C04) -- the serialization square abstains"""
+    from vf.spec import Union_
 
     for n in walk_all(t):
-        if isinstance(n, Union_):
-            seqs = maps = 0
-            for a in n.alts:
-                while isinstance(a, Exp) and a.cls.kind != "ml" and len(a.alts) == 1 and False:
-                    a = a.alts[0][1]
-                if isinstance(a, (Coll, Tup)) or (isinstance(a, Exp) and a.cls.kind == "ml"):
-                    seqs += 1
-                elif isinstance(a, MapT):
-                    maps += 1
-            if seqs > 1 or maps > 1:
-                return True
+        if isinstance(n, Union_) and any(isinstance(x, Exp) for a in n.alts for x in walk_all(a)):
+            for side in ("op", "ref"):
+                seen = set()
+                for a in n.alts:
+                    c = _cats(a, side)
+                    if "?" in c or "none" in c and False or (c & seen):
+                        return True
+                    seen |= c
+                if "int" in seen and "bool" in seen or "str" in seen and {"?"} & seen:
+                    return True
     return False
 
 
